@@ -44,4 +44,62 @@ inductive Ev where
   | unknown          -- outside the translated fragment (no theorem accepts it)
   deriving DecidableEq, Repr
 
+/-- the comparison FORM of a test of a boolean / optional parameter in the source (GENERATED table `flagTests`
+in `Nitime/Generated/C01Ctor.lean`).  `x == False`, `not x` and `x is None` agree on `True` / `False` but not on
+`None`, `0`, `0.0`, `''`, `[]`, `np.False_`, `'False'` … -/
+inductive FlagForm where
+  | eqFalse      -- `x == False`   (also `not x == True` is NOT this: recorded as `.other`)
+  | neFalse      -- `x != False`
+  | eqTrue       -- `x == True`
+  | neTrue       -- `x != True`
+  | isNone       -- `x is None`
+  | isNotNone    -- `x is not None`
+  | isFalse      -- `x is False`
+  | isTrue       -- `x is True`
+  | truthy       -- `if x:`
+  | notTruthy    -- `if not x:`
+  | other        -- any other shape (no theorem accepts it)
+  deriving DecidableEq, Repr
+
+/-- the value classes a caller can hand to a boolean / optional parameter (class "L3, sharper") -/
+inductive FlagVal where
+  | pyNone | pyFalse | pyTrue | int0 | float0 | emptyStr | emptyList | npFalse | npTrue | int1 | strFalse
+  deriving DecidableEq, Repr
+
+/-- python `v == False` -/
+def FlagVal.eqFalse : FlagVal → Bool
+  | .pyFalse | .int0 | .float0 | .npFalse => true
+  | _ => false
+
+/-- python `v == True` -/
+def FlagVal.eqTrue : FlagVal → Bool
+  | .pyTrue | .int1 | .npTrue => true
+  | _ => false
+
+/-- python `bool(v)` -/
+def FlagVal.truthy : FlagVal → Bool
+  | .pyTrue | .npTrue | .int1 | .strFalse => true
+  | _ => false
+
+/-- does the test hold for the value?  (`.other`: never — no theorem accepts a table that contains it) -/
+def FlagForm.holds : FlagForm → FlagVal → Bool
+  | .eqFalse, v => v.eqFalse
+  | .neFalse, v => !v.eqFalse
+  | .eqTrue, v => v.eqTrue
+  | .neTrue, v => !v.eqTrue
+  | .isNone, v => v == .pyNone
+  | .isNotNone, v => v != .pyNone
+  | .isFalse, v => v == .pyFalse
+  | .isTrue, v => v == .pyTrue
+  | .truthy, v => v.truthy
+  | .notTruthy, v => !v.truthy
+  | .other, _ => false
+
+/-- one test of a parameter: `fn` = `Class.method`, `param` = parameter name (or `isinstance(p,Class)`) -/
+structure FlagTest where
+  fn : String
+  param : String
+  form : FlagForm
+  deriving DecidableEq, Repr
+
 end Nitime.C01Attr
